@@ -14,7 +14,7 @@ import warnings
 
 import numpy as np
 
-from harness import core, tlc, fcsgen
+from harness import core, tlc, fcsgen, loadform
 from harness.core import run_driver
 
 import FlowCal.io  # noqa
@@ -48,7 +48,7 @@ class Containers(object):
                                 pnv=[str(100 * (i + 1)) for i in range(C)])
             with warnings.catch_warnings():
                 warnings.simplefilter('ignore')
-                x = FlowCal.io.FCSData(path)
+                x = FlowCal.io.FCSData(loadform.arg(path))
         else:
             path = os.path.join(self.dir, 's.fcs')
             big = any(v >= R for e in events for v in e)
@@ -56,7 +56,7 @@ class Containers(object):
                                 pnv=[str(100 * (i + 1)) for i in range(C)])
             with warnings.catch_warnings():
                 warnings.simplefilter('ignore')
-                x = FlowCal.io.FCSData(path)
+                x = FlowCal.io.FCSData(loadform.arg(path))
         self.cache[key] = x
         return x
 
